@@ -236,7 +236,11 @@ def run_case(case):
     spec["qha"] = dict(T_MIN=0, NT=3, DT=700, DT_SAMPLE=700, NTV=31, DELTA_P=1.0, DELTA_P_SAMPLE=1.0)
     spec["cellmass"] = case["mass"]
     with K.scratch() as d:
-        ds, st = synth.write(d, spec)
+        ds0 = synth.make(spec)
+        if case.get("mass_text"):
+            ds0["cellmass_text"] = {"exp": "%.6e" % ds0["cellmass"], "EXP": ("%.4E" % ds0["cellmass"]), "int": str(int(round(ds0["cellmass"]))), "plus": "+%.3f" % ds0["cellmass"]}[case["mass_text"]]
+            ds0["cellmass"] = float(ds0["cellmass_text"])
+        ds, st = synth.write(d, spec, ds=ds0)
         try:
             c = Calculator(os.path.join(d, "settings.yaml"))
         except Exception as ex:
@@ -253,7 +257,7 @@ def explore(ctx):
                 "2 grid shapes x 3 cell masses x 2 key orders on a duck calculator driving the real _calculate_compliances and "
                 "CijVolumeBaseInterface, all 4096 subsets of the twelve non-orthotropic components added to the nine orthotropic ones, all "
                 "ordered sequences of <=2 (<=3 thorough) attribute reads on one interface object (each read equal to a fresh object's), "
-                "plus real Calculators (3 data sets x 4 systems x 2 masses) and all ordered pairs (triples thorough) of real Calculators kept "
+                "plus real Calculators (3 data sets x 4 systems x 2 masses; cell mass written in plain, exponent, integer and signed notation) and all ordered pairs (triples thorough) of real Calculators kept "
                 "alive together in one process; every positive-definite grid point: "
                 "K/G Voigt, Reuss, Hill vs C_iijj, C_ijij, S_iijj, S_ijij of the full tensor, bounds, s*c = 1, rho v^2 identities in SI; "
                 "non-trivial = at least one positive-definite grid point")
@@ -278,6 +282,7 @@ def explore(ctx):
                    transitions=sum(len(sq) for sq in seqs))
     real = [{"kind": "calc", "data": dname, "system": s, "mass": m} for dname in ("A", "B", "C")
             for s in ("orthorhombic", "monoclinic", "cubic", "trigonal7") for m in (100.3887, 7.25)]
+    real += [{"kind": "calc", "data": "A", "system": "orthorhombic", "mass": m, "mass_text": mt} for m in (100.3887, 7.25, 1234.5) for mt in ("exp", "EXP", "int", "plus")]
     res += ctx.run(MOD, "run_case", real, part="real-calculators", chunksize=1)
     variants = [("A", "trigonal7"), ("A", "orthorhombic"), ("B", "monoclinic"), ("C", "cubic")]
     import itertools as _it
